@@ -409,7 +409,7 @@ def c23(pid, spec, tier, seed):
     res = lschecks.new_result()
     rng = random.Random(seed ^ 0x23)
     ng = 70 if tier == 'thorough' else 10
-    ns = 14 if tier == 'thorough' else 6
+    ns = 24 if tier == 'thorough' else 16
     jobs, meta = [], {}
     i = 0
     while len(jobs) < 2 * ng:
@@ -501,7 +501,10 @@ def c23(pid, spec, tier, seed):
                 if k in ('w', 'some'):
                     return '(%s %s)' % (k, sx(n[1]))
                 return '(none)'
-            lines.append('(ast %s %s %s (%s) %s)' % (kind, tables, aprods, inp, sx(tree)))
+            ntn = ev['non_terminal_names']
+            user = ' '.join(str(ntn.index(n)) for n in NAMES if n in ntn)
+            rcalls = ' '.join(str(ntn.index(n)) if n in ntn else '999' for n in r['calls'])
+            lines.append('(ast %s %s %s (%s) (%s) (%s) %s)' % (kind, tables, aprods, user, inp, rcalls, sx(tree)))
             line_case.append(case)
     if lines and spec.get('use_model', True):
         before = len(res['failures'])
